@@ -69,6 +69,12 @@ namespace ratio
         {
             expr l = dynamic_cast<const ast::expression *const>(left)->evaluate(scp, ctx);
             expr r = dynamic_cast<const ast::expression *const>(right)->evaluate(scp, ctx);
+            if (arith_item *al = dynamic_cast<arith_item *>(&*l))
+                if (arith_item *ar = dynamic_cast<arith_item *>(&*r))
+                { // the negation of an arithmetic equality does not decide on which side the difference lies: we state 'l < r | l > r'..
+                    arith_expr a_l(al), a_r(ar);
+                    return scp.get_core().disj({scp.get_core().lt(a_l, a_r), scp.get_core().gt(a_l, a_r)});
+                }
             return scp.get_core().negate(scp.get_core().eq(l, r));
         }
 
